@@ -24,7 +24,7 @@ CONN_MUTANTS = ["keepenc", "keepboth", "partial"]
 MUTANTS = ["nogroup", "nologterm", "noencterm", "noindex", "nodecadv"]
 PROP_INVS = "Lossless StepFaithful InSync CtxAgree ErrorAfterDamage"
 
-STREAM_KEYS = ["bursts", "burst_messages", "burst_not_written", "conn_scenarios", "conn_connections_cut", "conn_delivered", "posts", "snapshot_posts",
+STREAM_KEYS = ["reports", "reports_not_logged", "bursts", "burst_messages", "burst_not_written", "conn_scenarios", "conn_connections_cut", "conn_delivered", "posts", "snapshot_posts",
                "stream_connections", "stream_reconnects", "stream_messages", "stream_heartbeats", "stream_not_written",
                "stream_connections_not_logged"]
 ACTIONS = ["Encode", "EncodeFull", "EncodeHB", "Decode", "DoTruncate", "DoCorrupt"]
@@ -42,6 +42,9 @@ def classify(seg, what):
     sig = {"stage": kind, "class": cls, "stream": reset.get("stream", "?")}
     if kind == "corrupt":
         sig["field"] = strs[2] if len(strs) > 2 else "?"
+    elif kind == "report":
+        sig["transfer"] = strs[2] if len(strs) > 2 else "?"
+        sig["fault"] = strs[3] if len(strs) > 3 else "?"
     elif kind == "dec" and cls == "fields-differ":
         sig["fields"] = ",".join(sorted(strs[2:]))
     elif kind == "enc":
@@ -162,7 +165,8 @@ def run(ctx):
                 ("stream", ["-stream", "60", "-seed", str(seed * 10 + 6)]),
                 ("conn", ["-conn", "80", "-seed", str(seed * 10 + 7)]),
                 ("post", ["-post", "50", "-seed", str(seed * 10 + 8)]),
-                ("burst", ["-burst", ["h+2", "h+3", "h+9"][seed % 3], "-seed", str(seed * 10 + 9)])]
+                ("burst", ["-burst", ["h+2", "h+3", "h+9"][seed % 3], "-seed", str(seed * 10 + 9)]),
+                ("report", ["-report", "36", "-seed", str(seed * 10 + 10)])]
         walk_args = ["-dot", gdot, "-limit", "18000", "-seed", str(seed)]
     else:
         plan = [("random-%d" % i, ["-random", "250", "-len", "40", "-big", "0.12", "-seed", str(seed * 100 + i)]) for i in range(4)]
@@ -172,6 +176,7 @@ def run(ctx):
         plan += [("stream-%d" % i, ["-stream", "300", "-seed", str(seed * 100 + 40 + i)]) for i in range(2)]
         plan += [("conn-%d" % i, ["-conn", "300", "-seed", str(seed * 100 + 50 + i)]) for i in range(2)]
         plan += [("post", ["-post", "200", "-snap", "4", "-seed", str(seed * 100 + 60)])]
+        plan += [("report", ["-report", "90", "-reportok", "6", "-seed", str(seed * 100 + 80)])]
         plan += [("burst-%d" % i, ["-burst", b, "-seed", str(seed * 100 + 70 + i)])
                  for i, b in enumerate(["h-1,h,h+1", "h+2,h+3,m", "c-1,c,c+1"])]
         walk_args = ["-dot", gdot, "-seed", str(seed)]
@@ -271,6 +276,9 @@ def run(ctx):
                 nontrivial.add(c)
         for k in STREAM_KEYS:
             stream_stats[k] = stream_stats.get(k, 0) + summ.get(k, 0)
+        for k, v in (summ.get("report_cases") or {}).items():
+            rc = stream_stats.setdefault("report_cases", {})
+            rc[k] = rc.get(k, 0) + v
         stream_stats["burst_sizes"] = sorted(set(stream_stats.get("burst_sizes", []) + (summ.get("burst_sizes") or [])))
         if summ.get("mode") == "graph":
             stats["graph_edges"] = summ["edges"]
@@ -334,6 +342,15 @@ def run(ctx):
                  "TLC (ZCodecTrace OnTrunc/OnCorrupt) evaluates each: exactly the whole frames before the "
                  "damage, then an error"),
         stream_stage=dict(stream_stats,
+                          report_rule="reports: real sender/handler pairs over an httptest server - the real pipeline "
+                                      "(MsgApp, MsgSnap) -> pipelineHandler and the real snapshotSender (createSnapBody, "
+                                      "post, status polling) -> snapshotHandler with a recording saver - with one injected "
+                                      "fault per transfer (report_cases: kind/fault: round trip fails, request body cut "
+                                      "after k bytes, answer lost, 5xx, raft refuses, saver fails, status check fails); "
+                                      "ZCodecTrace ReportClass: success only for a delivered transfer, an undelivered one "
+                                      "always reported as failure, exactly one ReportSnapshot per snapshot transfer, "
+                                      "ReportUnreachable never with success; transfers reaching the 5 s status polling "
+                                      "run in the thorough tier only",
                           burst_rule="bursts: a real streamWriter is stalled inside a Write of a gated connection (the "
                                      "first Write call is awaited), burst_sizes messages are queued with blocking sends "
                                      "(sizes around half the queue = the flush batch, 3/4 and the capacity of "
